@@ -85,12 +85,14 @@ var faults = []struct {
 	{"cut-raw-auth1", 1, false, false, true}, // the raw answer of round 1 ends after a part of the bytes it announced
 	{"auth-code1", 1, false, true, false},
 	{"malformed-server-first", 1, true, false, false},
+	{"empty-server-first", 1, true, false, false}, // no bytes and no error code where the mechanism expects the server's message
 	{"bad-nonce", 1, true, false, false},
 	{"low-iterations", 1, true, false, false},
 	{"close-auth2", 2, true, false, false},
 	{"auth-code2", 2, true, true, false},
 	{"wrong-server-sig", 2, true, false, false},
 	{"malformed-server-final", 2, true, false, false},
+	{"empty-server-final", 2, true, false, false},
 	{"server-final-error", 2, true, false, false},
 }
 
@@ -227,6 +229,10 @@ func run(tb ev.TB, c authCase) {
 		cfg.WrongServerSig = true
 	case "malformed-server-final":
 		cfg.MalformServerFinal = true
+	case "empty-server-first":
+		cfg.EmptyServerFirst = true
+	case "empty-server-final":
+		cfg.EmptyServerFinal = true
 	case "server-final-error":
 		cfg.ServerFinalError = true
 	default:
@@ -368,7 +374,7 @@ func run(tb ev.TB, c authCase) {
 				}
 				// a response the client must refuse
 				switch c.Fault {
-				case "malformed-server-first", "bad-nonce":
+				case "malformed-server-first", "bad-nonce", "empty-server-first":
 					if authRounds == 1 {
 						failedAt = e.Seq
 					}
@@ -376,7 +382,7 @@ func run(tb ev.TB, c authCase) {
 					if authRounds == 1 && failed {
 						failedAt = e.Seq
 					}
-				case "wrong-server-sig", "malformed-server-final", "server-final-error":
+				case "wrong-server-sig", "malformed-server-final", "server-final-error", "empty-server-final":
 					if authRounds == 2 {
 						failedAt = e.Seq
 					}
